@@ -52,10 +52,10 @@ ASSUMPTIONS = [
     'INSTR with an empty search string and start = LEN(parent)+1 (including parent = ""): 0 and start are both '
     'accepted (the manual says 0 for start > LEN, the mathematical definition says start)',
     'MID$ statement with length 0 and a position outside [1,255]: Illegal function call or no effect both accepted',
-    'MID$(A$,p[,n])=A$ (source is the target variable itself): the reference is value semantics (right-hand side '
-    'evaluated first). GW-BASIC copies byte by byte from the left (tests/basic/unsorted/MIDS: "12312312"), and so '
-    'does pcbasic; that outcome is reported under the key midstmt/self-overlap-forward-copy (known-finding '
-    'proposal), any other outcome under midstmt/wrong-value',
+    'MID$(A$,p[,n])=A$ (source is the target variable itself): the reference definition is the sequential '
+    'replacement GW-BASIC performs (bytes copied from the left, so already replaced bytes are re-read; recorded in '
+    'tests/basic/unsorted/MIDS: A$="12345678":MID$(A$,4)=A$ gives 12312312); evaluating the right-hand side first '
+    '(12312345) is reported as midstmt/self-overlap-not-sequential',
     'fractional arguments are only used where rounding is not a tie (.4, 255.4, 1.6, ...): tie rounding is C03',
     'a negative literal -n reaches the function as a Single (unary minus); its CINT conversion is exact here',
 ]
@@ -583,13 +583,18 @@ def _exec_midstmt(ses, part, case):
     if r.err is not None:
         part.violation('midstmt/spurious-error/%s' % cls, '%s: error %d, reference: %r' % (detail, r.err, _short([exp])[0]), case)
         return
+    value_semantics = exp
+    if rhs == 'A$':
+        # source and target are the same string: sequential replacement (see ASSUMPTIONS)
+        exp = R.mid_statement_forward_copy(a, v[0], v[1])
     if got != exp:
+        if rhs == 'A$' and got == value_semantics and isinstance(got, bytes) and len(got) == len(a):
+            part.violation('midstmt/self-overlap-not-sequential',
+                           '%s: got %r (right-hand side evaluated first); GW-BASIC replaces sequentially: %r' % (
+                               detail, _short([got])[0], _short([exp])[0]), case)
+            return
         if isinstance(got, bytes) and len(got) != len(a):
             part.violation('midstmt/length-changed/%s' % cls, '%s: LEN %d -> %d' % (detail, len(a), len(got)), case)
-        elif rhs == 'A$' and got == R.mid_statement_forward_copy(a, v[0], v[1]):
-            part.violation('midstmt/self-overlap-forward-copy',
-                           '%s: got %r (byte-by-byte copy from the left, as GW-BASIC), value semantics give %r' % (
-                               detail, _short([got])[0], _short([exp])[0]), case)
         else:
             part.violation('midstmt/wrong-value/%s' % cls, '%s: got %r, reference %r' % (
                 detail, _short([got])[0], _short([exp])[0]), case)
